@@ -223,7 +223,7 @@ def job_format(args):
     c, it, ot, seed = args
     try:
         info, _ = S.run(c)
-        if "error" in info or not info.get("engine", "").startswith("cr") or S.bits_of(info) < 15 or S.f1_signature(info):
+        if "error" in info or not info.get("engine", "").startswith("cr") or S.bits_of(info) < 15 or S.f1_exact(info):
             return {"cfg": c, "label": S.cfg_label(c), "skipped": "n/a"}
         rg = np.random.default_rng(seed)
         ratio = float(c["ir"]) / float(c["orr"])
